@@ -55,6 +55,11 @@ def _stdin_for(src, data, archive):
             raise V.HarnessError("pipe too small for %d bytes" % len(data))
         f = os.fdopen(r, "rb")
         return f, int(os.fstat(f.fileno()).st_mtime)
+    if src == "drip":
+        # a pipe whose writer hands over 7 bytes at a time (short reads at the operating system level); only used where the
+        # listing footer (the pipe's modification time) is not printed
+        pr = subprocess.Popen(["dd", "if=" + archive, "bs=7"], stdout=subprocess.PIPE, stderr=subprocess.DEVNULL)
+        return pr.stdout, 0
     if src == "null":
         f = open("/dev/null", "rb")
         return f, int(os.fstat(f.fileno()).st_mtime)
@@ -139,6 +144,8 @@ def invoke_events(rng, sc, lha, hdr, tier, ev, prefixers=()):
             if rng.random() < 0.25:
                 filt = [rng.choice([b"*", b"d/*", b"?", b"c*", b"*.txt", b"sub/*", b"nomatch"])]
             srcs = ["path", "redirect", "pipe"] if len(data) < 900000 else ["path", "redirect"]
+            if w in ("lq2", "t", "tq1", "tq2", "p", "pq2", "pq1", "xn", "en", "tn", "-t") and len(data) < 200000:
+                srcs.append("drip")
             for src in srcs:
                 name = ab if src == "path" else b"-"
                 run([w.encode(), name] + filt, src, data, a, ms, recs, sc, True)
@@ -196,7 +203,7 @@ def invoke_events(rng, sc, lha, hdr, tier, ev, prefixers=()):
     # "-" with filters, and an archive called "-" is not reachable by that name
     run([b"l", b"-", b"d/*", b"g"], "pipe", data, a, ms, recs, cwd, True)
     run([b"t", b"-", b"bad"], "redirect", data, a, ms, recs, cwd, True)
-    ev.set("invocations_by_source", {s: sum(1 for e in events if e["src"] == s) for s in ("path", "redirect", "pipe", "null", "none")})
+    ev.set("invocations_by_source", {s: sum(1 for e in events if e["src"] == s) for s in ("path", "redirect", "pipe", "drip", "null", "none")})
     return events
 
 
